@@ -3,4 +3,5 @@
 //! Read-only accessors used by an external checking harness. Nothing in here is
 //! compiled into a normal build.
 
+pub mod dim;
 pub mod prefix;
